@@ -576,6 +576,72 @@ func c04Unicode(c *Ctx, g *load.G) {
 	r.Check(used["Categories"] && used["Properties"] && used["Scripts"], "C04-d", "T.rangeTable:lookups", "", "builder/static_code_range_table.go", "Categories, Properties and Scripts are consulted", fmt.Sprintf("rangeTable consults %v", used))
 }
 
+// unicodeMissing returns the accepted Unicode class names that have no table in the toolchain (err != "" on machinery failure).
+func unicodeMissing(g *load.G) (missing []string, errText string) {
+	out, err := exec.Command("go", "env", "GOROOT").Output()
+	if err != nil {
+		return nil, "go env GOROOT: " + err.Error()
+	}
+	fset := token.NewFileSet()
+	tf, err := parser.ParseFile(fset, filepath.Join(strings.TrimSpace(string(out)), "src/unicode/tables.go"), nil, 0)
+	if err != nil {
+		return nil, err.Error()
+	}
+	keys := map[string]bool{}
+	ast.Inspect(tf, func(n ast.Node) bool {
+		vs, ok := n.(*ast.ValueSpec)
+		if !ok {
+			return true
+		}
+		for i, nm := range vs.Names {
+			if (nm.Name == "Categories" || nm.Name == "Properties" || nm.Name == "Scripts") && i < len(vs.Values) {
+				if cl, ok := vs.Values[i].(*ast.CompositeLit); ok {
+					for _, e := range cl.Elts {
+						if kv, ok := e.(*ast.KeyValueExpr); ok {
+							if bl, ok := kv.Key.(*ast.BasicLit); ok {
+								if k, err := strconv.Unquote(bl.Value); err == nil {
+									keys[k] = true
+								}
+							}
+						}
+					}
+				}
+			}
+		}
+		return true
+	})
+	if len(keys) < 100 {
+		return nil, "unicode tables not found"
+	}
+	n := 0
+	for _, f := range g.Pkg("").Syntax {
+		ast.Inspect(f, func(nd ast.Node) bool {
+			vs, ok := nd.(*ast.ValueSpec)
+			if !ok || len(vs.Names) != 1 || vs.Names[0].Name != "unicodeClasses" || len(vs.Values) != 1 {
+				return true
+			}
+			if cl, ok := vs.Values[0].(*ast.CompositeLit); ok {
+				for _, e := range cl.Elts {
+					if kv, ok := e.(*ast.KeyValueExpr); ok {
+						if bl, ok := kv.Key.(*ast.BasicLit); ok {
+							k, _ := strconv.Unquote(bl.Value)
+							n++
+							if !keys[k] {
+								missing = append(missing, k)
+							}
+						}
+					}
+				}
+			}
+			return false
+		})
+	}
+	if n < 100 {
+		return nil, "unicodeClasses table not found"
+	}
+	return missing, ""
+}
+
 // c04Pipeline checks the statement order of writeStaticCode that the checker reproduces.
 func c04Pipeline(c *Ctx, g *load.G) {
 	r := c.R
